@@ -93,6 +93,16 @@ def _mkstore(I, cap, tag):
             raise AnalysisError(f"[AH] {tag}.extend({x!r}): length unknown")
         s.length = s.length + n
 
+    def getitem(k):
+        if not isinstance(k, slice) or k.step is not None:
+            raise AnalysisError(f"[AH] {tag}[{k!r}]: only slices of the storage are modelled")
+        lo = topoly(k.start) if k.start is not None else K(0)
+        hi = topoly(k.stop) if k.stop is not None else s.length
+        v = _mkstore(I, hi - lo, f"{tag}[{lo!r}:{hi!r}]")
+        v.base = getattr(s, "base", s)
+        return v
+
+    s.attrs["__getitem__"] = Builtin("getitem", getitem)
     s.attrs["extend"] = Builtin("extend", extend)
     s.attrs["__len__"] = Builtin("len", lambda: Sym(s.length))
     return s
